@@ -1265,6 +1265,12 @@ func preprocessStylesheet(deviceMediaType, baseUrl string, stylesheetRules []pa.
 	for _, rule := range stylesheetRules {
 		atRule, isAtRule := rule.(pa.AtRule)
 		if _isContentNone(rule) && (!isAtRule || utils.AsciiLower(atRule.AtKeyword) != "import") {
+			if qr, isQualified := rule.(pa.QualifiedRule); isQualified {
+				// a valid style rule with an empty block still ends the @import section
+				if _, err := selector.ParseGroup(pa.Serialize(qr.Prelude)); err == nil {
+					ignoreImports = true
+				}
+			}
 			continue
 		}
 
